@@ -147,7 +147,7 @@ theorem C07_reraise_off_returns (e : Env) (s : Sig) (hs : s.graceful = false) (p
     onSignal x = [.storeSignal, .setAlarm, .logNotice, .flush, .ret] ∧
     exec e s (onSignal x) false false f =
       ({ queue := [], written := f.written ++ f.queue ++ (if e.infoOn then [.notice] else []) }, .continues) := by
-  obtain ⟨run, info, crit, wait⟩ := e
+  obtain ⟨run, info, crit, wait, gu⟩ := e
   simp only at hrun
   subst hrun
   have h1 : onSignal ⟨s, true, pr, true, false, true, false⟩ = [.storeSignal, .setAlarm, .logNotice, .flush, .ret] := by
@@ -677,5 +677,112 @@ theorem C07_neg_id_cleared_before_stop :
      signalDuringStop true true true .segv false a a =
        ({ queue := [], written := [.stmt 0, .stmt 1, .notice, .critical] }, .diedBy .segv)) := by
   decide
+
+/-! ### the candidate repair of F27 (`findings/F27_candidate_repair.diff`): the handler's wait ends when the backend thread is gone -/
+
+/-- the interleaving theorems above are about the code whose handler waits for ever (extracted: `flushEndsWhenBackendGone = false`; `Obligations.C07_signal_during_stop_extracted_flush`) -/
+theorem C07_stop_model_waits_for_ever (wait info crit : Bool) (s : Sig) (pr : Bool) (a b : CS) :
+    signalDuringStopG false wait info crit s pr a b = signalDuringStop wait info crit s pr a b := rfl
+
+/-- with the repair, at **every** interleaving point inside `stop()` the process ends the way the property asks for (by
+    the signal; `exit(0)` for SIGINT/SIGTERM) — no hang; before the backend's last look nothing changes; after it the
+    lines already in the destination stay and the notice(s) are what remains lost -/
+theorem C07_F27_repair_never_hangs (wait info crit : Bool) (s : Sig) (pr : Bool) (f : Fe) (pre mid : List Ev) :
+    let a := (CS.init f).run stopSeqCurrent wait pre
+    let b := a.run stopSeqCurrent wait mid
+    a.pc < 6 →
+    (signalDuringStopG true wait info crit s pr a b).2 = (if s.graceful then .exit0 else .diedBy s) ∧
+    (b.serving = true → signalDuringStopG true wait info crit s pr a b = signalDuringStop wait info crit s pr a b) ∧
+    (b.serving = false → (signalDuringStopG true wait info crit s pr a b).1.written = b.fe.written) := by
+  intro a b ha
+  have hid : a.idSet = true := (C07_stop_id_set_until_backend_gone wait _ pre).1.mpr ha
+  have hx : a.ctx s pr = Ctx.frontend s pr := by simp [CS.ctx, Ctx.frontend, hid]
+  cases hb : b.serving
+  · have hw : signalDuringStopG true wait info crit s pr a b =
+        (if s.graceful then ({ queue := b.fe.queue ++ notices { backendRunning := true, infoOn := info, critOn := crit } s, written := b.fe.written }, Outcome.exit0)
+         else ({ queue := b.fe.queue ++ notices { backendRunning := true, infoOn := info, critOn := crit } s, written := b.fe.written }, Outcome.diedBy s)) := by
+      unfold signalDuringStopG
+      rw [hx, onSignal_frontend, hb]
+      cases hg : s.graceful <;> cases info <;> cases crit <;> simp [exec, Fe.log, notices, hg]
+    refine ⟨?_, ?_, ?_⟩
+    · rw [hw]; cases hg : s.graceful <;> simp
+    · intro h; cases h
+    · intro _; rw [hw]; cases hg : s.graceful <;> simp
+  · have e1 : signalDuringStopG true wait info crit s pr a b = signalDuringStop wait info crit s pr a b := by
+      unfold signalDuringStopG signalDuringStop
+      rw [hx, exec_frontend _ s pr _ (by simpa using hb), exec_frontend _ s pr _ (by simpa using hb)]
+      simp [notices]
+    refine ⟨?_, ?_, ?_⟩
+    · rw [e1]
+      exact (C07_signal_during_stop_exact wait info crit s pr f pre mid ha).mpr hb
+    · intro _; exact e1
+    · intro h; cases h
+
+/-- the F27 witness under the repair: death by SIGSEGV instead of the hang; the notices stay queued -/
+example : (let a := (CS.init { queue := [], written := [.stmt 0] }).run stopSeqCurrent true [.stopper, .stopper, .bgLastCheck]
+    signalDuringStopG true true true true .segv false a a) = ({ queue := [.notice, .critical], written := [.stmt 0] }, .diedBy .segv) := by
+  decide
+
+/-! ## a process-directed signal with several threads: the outcome as a function of the receiving thread's class -/
+
+/-- **every class**: on a frontend thread — whether it has logged before or not — the handler enqueues the notice(s) on
+    that thread's own queue behind whatever that thread had queued, flushes, and the process ends by the signal
+    (`exit(0)` for SIGINT/SIGTERM); on the backend thread nothing is logged or flushed and the process ends at once -/
+theorem C07_kill_outcome_by_receiver (e : Env) (hrun : e.backendRunning = true) (s : Sig) (pr : Bool) (r : Receiver) (own : Fe) :
+    killOutcome e s pr r own =
+      match r with
+      | .backend => if s.graceful then (if e.waitOnExit then own.drain else own, .exit0) else (own, .diedBy s)
+      | _ => ({ queue := [], written := own.written ++ own.queue ++ notices e s }, if s.graceful then .exit0 else .diedBy s) := by
+  cases r with
+  | backend =>
+    have h := C07_backend_or_no_backend_outcome e (Receiver.ctx .backend s pr) own rfl (Or.inr rfl) rfl
+    simpa [killOutcome, Receiver.ctx, hrun] using h
+  | logged => exact exec_frontend e s pr own hrun
+  | neverLogged => exact exec_frontend e s pr own hrun
+
+example : killOutcome { backendRunning := true } .segv false .backend { queue := [.stmt 0], written := [] } =
+    ({ queue := [.stmt 0], written := [] }, .diedBy .segv) := by decide
+
+/-- **what the property promises**: if every thread that does not block the signal has logged before, then whichever of
+    them the kernel chooses, that thread's earlier statements are in the destination followed by the notice(s), nothing
+    of it stays queued, and the process dies by the signal (exits successfully for SIGINT/SIGTERM) -/
+theorem C07_kill_whichever_logged_thread (e : Env) (hrun : e.backendRunning = true) (s : Sig) (pr : Bool) (ts : List Thr)
+    (hall : ∀ t ∈ ts, t.blocked = false → t.cls = .logged) (r : Receiver) (hr : r ∈ candidates ts)
+    (earlier : List Nat) (w q : List Item) (hsplit : w ++ q = earlier.map Item.stmt) :
+    killOutcome e s pr r { queue := q, written := w } =
+      ({ queue := [], written := earlier.map Item.stmt ++ notices e s }, if s.graceful then .exit0 else .diedBy s) := by
+  have hl : r = .logged := by
+    simp only [candidates, List.mem_map, List.mem_filter, Bool.not_eq_true'] at hr
+    obtain ⟨t, ⟨ht, hb⟩, rfl⟩ := hr
+    exact hall t ht hb
+  subst hl
+  rw [C07_kill_outcome_by_receiver e hrun s pr .logged, hsplit]
+
+example : candidates [⟨.logged, false⟩, ⟨.backend, true⟩, ⟨.logged, false⟩, ⟨.neverLogged, true⟩] = [.logged, .logged] := by decide
+
+/-- a thread that never logged: the handler's first log call creates its context; the destination gets the notice(s)
+    and the process ends as for any frontend thread — nothing of that thread existed to be lost (outside the premise
+    "a thread that has logged before"; the creation of the queue inside the handler is not async-signal-safe, which the
+    model cannot show) -/
+theorem C07_kill_never_logged_thread (e : Env) (hrun : e.backendRunning = true) (s : Sig) (pr : Bool) :
+    killOutcome e s pr .neverLogged {} = ({ queue := [], written := notices e s }, if s.graceful then .exit0 else .diedBy s) := by
+  rw [C07_kill_outcome_by_receiver e hrun s pr .neverLogged]; simp
+
+/-- the backend thread inherits a mask with every signal blocked (order of `start` with the handler, extracted:
+    `shStartOrder`): as long as no user code on that thread unblocks it, the kernel never chooses it; and a signal
+    that every thread blocks is delivered to nobody (it stays pending) -/
+theorem C07_kill_candidates (ts : List Thr) :
+    ((∀ t ∈ ts, t.cls = .backend → t.blocked = true) → Receiver.backend ∉ candidates ts) ∧
+    ((∀ t ∈ ts, t.blocked = true) → candidates ts = []) := by
+  constructor
+  · intro h hm
+    simp only [candidates, List.mem_map, List.mem_filter, Bool.not_eq_true'] at hm
+    obtain ⟨t, ⟨ht, hb⟩, hc⟩ := hm
+    have := h t ht hc
+    rw [hb] at this; cases this
+  · intro h
+    simp only [candidates, List.map_eq_nil_iff, List.filter_eq_nil_iff, Bool.not_eq_true', Bool.not_eq_false]
+    intro t ht
+    simpa using h t ht
 
 end Exit
